@@ -629,6 +629,9 @@ def run(ck: Check) -> None:
     quick = ck.tier == "quick"
     ck.translate("Unicode", uni.generate())
     ck.translate("EscTables", esc.generate())
+    from ..translate import parse_passes
+
+    ck.translate("ParsePasses", parse_passes.generate())  # the order of the post-passes of Parser.parse (Props/C09 `parse_pass_order_ok`)
     ck.prove()
     ck.assumptions += [
         "C07's assumptions (generated character tables, CaseOK for str.lower/upper, PrefixOK) for the member names",
